@@ -257,7 +257,7 @@ def gen_parent(rng, versions, versions2=None, comp=None, comp2=None, step=60):
     return mg.Repo("par", commits, heads, tags, other_tags=other_tags), pins, pins2
 
 
-def gen_parent_merge(rng, versions):
+def gen_parent_merge(rng, versions, side_pins=None):
     """a parent history shaped on purpose: two side branches are built and then merged. Side A has only commits of
     the parent's own (one mentions the ticket) and still pins the oldest component build; side B moves the pin
     forward. The merge commit - A or B as its first parent - is built too"""
@@ -282,13 +282,18 @@ def gen_parent_merge(rng, versions):
     for _ in range(rng.randint(0, 2)):
         tip = add([tip], old_pin, build=rng.random() < 0.3)
     a = tip
+    # (side_pins: both sides move the pin - to component builds on two parallel sub-branches of the component - and
+    # the merge pins a build that has them both)
     for k in range(rng.randint(1, 2)):
-        a = add([a], old_pin, msg="BUG-7 p-own %d" % k if k == 0 or rng.random() < 0.5 else None)
+        a = add([a], side_pins[0] if side_pins else old_pin,
+                msg="BUG-7 p-own %d" % k if k == 0 or rng.random() < 0.5 else None)
     b = tip
     pin_b = old_pin
     for _ in range(rng.randint(1, 3)):
-        pin_b = min(len(versions) - 1, pin_b + rng.choice([1, 1, 2]))
+        pin_b = side_pins[1] if side_pins else min(len(versions) - 1, pin_b + rng.choice([1, 1, 2]))
         b = add([b], pin_b, build=rng.random() < 0.4)
+    if side_pins:
+        pin_b = side_pins[2]
     # the ends of both sides are builds
     for side in (a, b):
         if side not in tags.values():
@@ -834,6 +839,22 @@ def run_shard(ctx):
         if not versions2 and step == 60 and len(versions) >= 2 and i % 7 == 3:
             par, pins, pins2 = gen_parent_merge(rng, versions)
             ctx.count("parents_that_merge_two_built_sides")
+        elif not versions2 and step == 60 and i % 9 == 4 and len(versions) >= 3 and rng.random() < 0.7:
+            # the component has merged topic branches: the two sides of the parent pin builds of two parallel topics
+            anc = {k: mg.ancestors(comp.commits[versions[k][0]]) for k in range(len(versions))}
+            pairs = [(x, y) for x in range(len(versions)) for y in range(len(versions))
+                     if x < y and versions[x][0] not in anc[y] and versions[y][0] not in anc[x]]
+            tops = [k for k in range(len(versions)) if pairs and all(versions[z][0] in anc[k] for z in pairs[0])]
+            if pairs and tops:
+                x, y = rng.choice([pr for pr in pairs if any(all(versions[z][0] in anc[k] for z in pr) for k in range(len(versions)))] or pairs[:1])
+                top = [k for k in range(len(versions)) if versions[x][0] in anc[k] and versions[y][0] in anc[k]]
+                if top:
+                    par, pins, pins2 = gen_parent_merge(rng, versions, side_pins=(x, y, rng.choice(top)))
+                    ctx.count("parent_merges_whose_sides_pin_parallel_topics_of_the_component")
+                else:
+                    par, pins, pins2 = gen_parent(rng, versions, versions2, comp, None, step)
+            else:
+                par, pins, pins2 = gen_parent(rng, versions, versions2, comp, None, step)
         else:
             par, pins, pins2 = gen_parent(rng, versions, versions2, comp, comp2 if versions2 else None, step)
         if len(pins) < len(par.commits):
